@@ -66,6 +66,23 @@ def handleC17Single : List String → Option String
     let h ← parseBool hasChannel; let r ← parseCRows rows
     let out := sortByTime h r
     pure s!"ok {showNats (out.map (·.id))}"
+  | ["c17.sortreg", hasChannel, rows] => do
+    let h ← parseBool hasChannel; let r ← parseCRows rows
+    pure s!"ok {showBools [sortRegular h r, sortSpanTooLarge h r, sortTooLargeFloat h r]}"
+  | ["c17.stablesort", kind, arr] => do
+    let a ← parseInts arr
+    pure <| match stableSort kind a with | some o => s!"ok {showInts o}" | none => "err SortingError"
+  | ["c17.stableargsort", kind, arr] => do
+    let a ← parseInts arr
+    pure <| match stableArgsort kind a with | some o => s!"ok {showNats o}" | none => "err SortingError"
+  | ["c17.sortkind", kind, hasChannel, rows] => do
+    let h ← parseBool hasChannel; let r ← parseCRows rows
+    pure <| match sortByTimeAndChannelKind kind h r with
+      | some o => s!"ok {showNats (o.map (·.id))}" | none => "err SortingError"
+  | ["c17.touchkind", kind, things, containers, w] => do
+    let t ← parseRows things; let c ← parseRows containers; let w ← w.toInt?
+    pure <| match touchingWindowsCoreKind kind t c w with
+      | some o => s!"ok {showPairsNat o}" | none => "err SortingError"
   -- decidable hypotheses of the theorems, evaluated by the model's own deciders:
   -- things: sorted by time, sorted by end, non-negative, positive, non-overlapping; same for the second array
   | ["c17.hyp", things, containers] => do
